@@ -630,7 +630,7 @@ static void mode_pair(int argc, char **argv) {
 }
 
 /* ------------------------------------------------------------------ tunnel mode (C16) ------- */
-static struct { size_t head_len, qlen, rhead_len; int status, payload, reqkind, expect_tunnel, expect_http; char desc[220]; } TT;
+static struct { size_t head_len, qlen, rhead_len, follow_after; int status, payload, reqkind, expect_tunnel, expect_http; char desc[240]; } TT;
 static void tunnel_inspect(htp_connp_t *c, hx_obs *o, void *ctx) {
     (void) ctx;
     /* (i) before the first response byte is offered the request side consumes nothing beyond the CONNECT head */
@@ -682,7 +682,7 @@ static long tunnel_counter;
 static void tunnel_exec(const pchunk *q, int nq, const pchunk *r, int nr, int head_chunk, int adestroy) {
     /* all interleavings in which no response chunk precedes the request chunk that completes the head, and (when the
      * tunnel carries HTTP) no chunk with bytes of the follow-up responses precedes the last request chunk */
-    int tot = nq + nr; uint8_t sch[8];
+    int tot = nq + nr; uint8_t sch[10];
     for (unsigned m = 0; m < (1u << tot); m++) {
         if (__builtin_popcount(m) != nr) continue;
         int qi = 0, ri0 = 0, ok = 1;
@@ -691,6 +691,7 @@ static void tunnel_exec(const pchunk *q, int nq, const pchunk *r, int nr, int he
                 if (qi <= head_chunk) ok = 0;
                 size_t rend = (size_t) (r[ri0].d - r[0].d) + r[ri0].n;
                 if (TT.expect_http && rend > TT.rhead_len && qi < nq) ok = 0;
+                if (TT.follow_after && rend > TT.follow_after && qi < nq) ok = 0;     /* banner payload: the follow-up responses only after every request byte */
                 ri0++;
             } else qi++;
             sch[k] = (uint8_t) (m >> k & 1);
@@ -711,7 +712,7 @@ static void mode_tunnel(int argc, char **argv) {
     static const int STAT[] = { 200, 204, 101, 407, 403, 500 };
     static hx_buf q, r;
     for (int reqkind = 0; reqkind < 2; reqkind++)            /* 0 CONNECT, 1 GET with Upgrade */
-    for (size_t si = 0; si < 6; si++) for (int payload = 0; payload < 4; payload++) for (int body = 0; body < 2; body++) for (int interim = 0; interim < 2; interim++) {
+    for (size_t si = 0; si < 6; si++) for (int payload = 0; payload < 5; payload++) for (int body = 0; body < 2; body++) for (int interim = 0; interim < 2; interim++) {
         /* interim: the final answer is preceded by an interim "100 Continue" response (swallowed by the response parser; with a cut at its end and a
          * request call in between, the request side must keep waiting for the FINAL status) */
         int status = STAT[si];
@@ -722,7 +723,9 @@ static void mode_tunnel(int argc, char **argv) {
         if (reqkind == 0) hb_puts(&q, "CONNECT host.example:443 HTTP/1.1\r\nHost: host.example:443\r\n\r\n");
         else hb_puts(&q, "GET /chat HTTP/1.1\r\nHost: h\r\nConnection: Upgrade\r\nUpgrade: websocket\r\n\r\n");
         size_t head = q.n;
-        if (payload == 1) hb_puts(&q, "GET /t1 HTTP/1.1\r\nHost: h\r\n\r\nGET /t2 HTTP/1.1\r\nHost: h\r\n\r\n");
+        /* payload 4: the server greets with a text line before it answers the tunnelled requests (judged by the monitors only) */
+        if (payload == 4 && (reqkind == 1 || body || interim)) continue;
+        if (payload == 1 || payload == 4) hb_puts(&q, "GET /t1 HTTP/1.1\r\nHost: h\r\n\r\nGET /t2 HTTP/1.1\r\nHost: h\r\n\r\n");
         else if (payload == 2) hb_put(&q, "\x16\x03\x01\x00\x2e\x01\x00\x00\x2a\x03\x03\n\x00\xff", 14);
         else if (payload == 3) hb_put(&q, "\x16\x03\x01\x00\x2e\x01\x00\x00\x2a\x03\x03\x07\x00\xff", 14);   /* no LF at all: only the NUL ends the probe */
         if (interim) hb_puts(&r, "HTTP/1.1 100 Continue\r\n\r\n");
@@ -730,29 +733,48 @@ static void mode_tunnel(int argc, char **argv) {
         if (body) hb_puts(&r, "Content-Length: 2\r\n\r\nno"); else if (!twoxx && status != 101) hb_puts(&r, "Content-Length: 0\r\n\r\n"); else hb_puts(&r, "\r\n");
         size_t rhead = r.n - (body ? 2 : 0);
         int http_resume = (payload == 1) && (status != 101);
+        size_t follow_after = 0;
+        if (payload == 4) { hb_puts(&r, "welcome\n"); follow_after = r.n; hb_puts(&r, "HTTP/1.1 211 A\r\nContent-Length: 0\r\n\r\nHTTP/1.1 212 B\r\nContent-Length: 0\r\n\r\n"); }
         if (http_resume) hb_puts(&r, "HTTP/1.1 211 A\r\nContent-Length: 0\r\n\r\nHTTP/1.1 212 B\r\nContent-Length: 0\r\n\r\n");
-        else if (payload >= 2 && (twoxx || status == 101)) hb_put(&r, "\x16\x03\x03\x00\x05hello\n\x01", 12);
+        else if ((payload == 2 || payload == 3) && (twoxx || status == 101)) hb_put(&r, "\x16\x03\x03\x00\x05hello\n\x01", 12);
         else if (payload == 1 && status == 101) hb_put(&r, "\x81\x05hello", 7);
         /* refused CONNECT followed by non-HTTP bytes is outside the statement */
-        if (payload >= 2 && !(twoxx || status == 101)) continue;
+        if ((payload == 2 || payload == 3) && !(twoxx || status == 101)) continue;
+        TT.follow_after = follow_after;
         TT.head_len = head; TT.qlen = q.n; TT.rhead_len = rhead; TT.status = status; TT.payload = payload; TT.reqkind = reqkind;
-        TT.expect_tunnel = (status == 101) || (twoxx && payload >= 2 && reqkind == 0);
+        TT.expect_tunnel = (status == 101) || (twoxx && (payload == 2 || payload == 3) && reqkind == 0);
         TT.expect_http = http_resume && reqkind == 0;
         /* cut choices: none, or one cut in the +-3 window around the head end (both directions) */
         /* cut choices: none or one cut per direction; fullcuts: at EVERY position of each stream, otherwise in the +-3 window around the head end */
         int qlo = fullcuts ? -(int) head : -4, qhi = fullcuts ? (int) (q.n - head) - 1 : 3, rlo = fullcuts ? -(int) rhead : -4, rhi = fullcuts ? (int) (r.n - rhead) - 1 : 3;
+        /* hc: the request stream is additionally cut at the end of the CONNECT head (the client waits for the answer before it uses the tunnel),
+         * so that with one more cut in each stream the schedule  head | answer + x | request part | rest of answer | rest of request ...  exists */
+        for (int hc = 0; hc < ((payload == 1 || payload == 4) && reqkind == 0 ? 2 : 1); hc++)
         for (int qc = qlo; qc <= qhi; qc++) for (int rc = rlo; rc <= rhi; rc++) for (int ad = 0; ad < 2; ad++) {
+            if (hc && ad) continue;
             long id = tunnel_counter++;
             if (id % hx_shard_n != hx_shard_i || hx_deadline_hit()) continue;
-            pchunk pq[2], pr[2]; int nq = 1, nr = 1, head_chunk = 0;
+            pchunk pq[3], pr[3]; int nq = 1, nr = 1, head_chunk = 0;
             /* the lowest value of each range stands for "no cut" */
             size_t qcut = qc == qlo ? 0 : head + (size_t) qc, rcut = rc == rlo ? 0 : rhead + (size_t) rc;
             if (qcut > 0 && qcut < q.n) { pq[0] = (pchunk) { q.p, (uint32_t) qcut }; pq[1] = (pchunk) { q.p + qcut, (uint32_t) (q.n - qcut) }; nq = 2; head_chunk = qcut >= head ? 0 : 1; }
             else pq[0] = (pchunk) { q.p, (uint32_t) q.n };
             if (rcut > 0 && rcut < r.n) { pr[0] = (pchunk) { r.p, (uint32_t) rcut }; pr[1] = (pchunk) { r.p + rcut, (uint32_t) (r.n - rcut) }; nr = 2; }
             else pr[0] = (pchunk) { r.p, (uint32_t) r.n };
+            if (hc) {
+                if (nq == 1 || qcut == head || head >= q.n) continue;         /* needs a second, different cut */
+                size_t c1 = qcut < head ? qcut : head, c2 = qcut < head ? head : qcut;
+                pq[0] = (pchunk) { q.p, (uint32_t) c1 }; pq[1] = (pchunk) { q.p + c1, (uint32_t) (c2 - c1) }; pq[2] = (pchunk) { q.p + c2, (uint32_t) (q.n - c2) }; nq = 3;
+                head_chunk = qcut < head ? 1 : 0;
+                /* greeting payload: the response stream is also cut where the greeting line ends (the server answers the tunnelled requests later) */
+                if (follow_after && nr == 2 && rcut != follow_after) {
+                    size_t d1 = rcut < follow_after ? rcut : follow_after, d2 = rcut < follow_after ? follow_after : rcut;
+                    pr[0] = (pchunk) { r.p, (uint32_t) d1 }; pr[1] = (pchunk) { r.p + d1, (uint32_t) (d2 - d1) }; pr[2] = (pchunk) { r.p + d2, (uint32_t) (r.n - d2) }; nr = 3;
+                }
+            }
             snprintf(TT.desc, sizeof TT.desc, "%s status=%d%s payload=%s body=%d qcut=%d rcut=%d auto_destroy=%d", reqkind ? "GET+Upgrade" : "CONNECT", status, interim ? " after an interim 100" : "",
-                     payload == 0 ? "none" : payload == 1 ? "2 HTTP requests" : payload == 2 ? "TLS-like bytes" : "TLS-like bytes without LF", body, qc, rc, ad);
+                     payload == 0 ? "none" : payload == 1 ? "2 HTTP requests" : payload == 2 ? "TLS-like bytes" : payload == 3 ? "TLS-like bytes without LF" : "2 HTTP requests, server greets with a text line first", body, qc, rc, ad);
+            if (hc) strncat(TT.desc, " +cut at the CONNECT head end", sizeof TT.desc - strlen(TT.desc) - 1);
             if (id % 700 == 0) hx_emit_sample(TT.desc);
             tunnel_exec(pq, nq, pr, nr, head_chunk, ad);
         }
